@@ -46,6 +46,14 @@ Theorem C27_recv_exact : forall (buf p : list N), exists g pieces,
 Proof. exact recv_exact. Qed.
 Print Assumptions C27_recv_exact.
 
+(* A datagram that arrives without ancillary data (the kernel reports msg_controllen = 0, whatever an earlier
+   datagram left in the slot's control buffer) has no size and is delivered whole.  That ListenOut really parses
+   Control[:msg_controllen of THIS datagram] is checked at system level by the correspondence component `listenout`. *)
+Theorem C27_no_cmsg_whole : forall p : list N,
+  parse_recv_cmsg [] = Some (0%Z, false) /\ deliver_segments p 0 = Some [p].
+Proof. intros p. split; [reflexivity|apply split_whole; left; apply Z.le_refl]. Qed.
+Print Assumptions C27_no_cmsg_whole.
+
 (* Not vacuous: the checked accessor does flag an outside read; a kernel-shaped buffer yields its size;
    a header at the very end that claims UDP_GRO without room for the payload is not read past. *)
 Example C27_nonvacuous :
